@@ -3,7 +3,7 @@
    The Gaussian facts are hypotheses (tail_ok: Chernoff bound; mills_ok: Mills ratio; chi2_ok: union
    over coordinates) — no probability library is installed.  T x = P(|Z| > x), C2 m y = P(chi2_m > y). *)
 From Coq Require Import Reals.
-From VOPy Require Import SchedBase SchedulesA SchedulesB SchedulesC.
+From VOPy Require Import SchedBase SchedulesA SchedulesB SchedulesC SchedulesD.
 From VOPy Require Spec.
 From VOPyGen Require Import Gen_formulas.
 From VOPyGen Require Gen_algos.
@@ -60,6 +60,13 @@ Theorem C04_paveba_partial_gp_rectangles : forall T K m delta nv N, tail_ok T ->
   sumR (fun t => INR K * INR m * T (paveba_partial_gp_alpha nv delta (INR K) (INR m) (INR t) 1)) N <= delta.
 Proof. exact partial_gp_rect_union_bound. Qed.
 Print Assumptions C04_paveba_partial_gp_rectangles.
+
+(* PaVeBaPartialGP with hyper-rectangles for the whole quantified range of objective counts (m <= 6; proved for m <= 8) *)
+Theorem C04_paveba_partial_gp_rectangles_up_to_eight_objectives : forall T K m delta nv N, tail_ok T ->
+  (1 <= K)%nat -> (1 <= m <= 8)%nat -> 0 < delta < 1 ->
+  sumR (fun t => INR K * INR m * T (paveba_partial_gp_alpha nv delta (INR K) (INR m) (INR t) 1)) N <= delta.
+Proof. exact partial_gp_rect_union_bound_m8. Qed.
+Print Assumptions C04_paveba_partial_gp_rectangles_up_to_eight_objectives.
 
 (* PaVeBa's radius is a function of the round t; it is the right radius for a design holding t samples.  The designs
    whose regions modeling() rebuilds are exactly the designs evaluating() samples in the same round (both sets
